@@ -374,6 +374,18 @@ inline std::string item_string(const Item& it)
     return s;
 }
 
+// a user type whose inserter reports failure: the statement's stream is in a failed state from
+// here on (later insertions write nothing - for the reference stream just as for the real one)
+struct FailBit
+{
+};
+inline std::ostream& operator<<(std::ostream& o, const FailBit&)
+{
+    o << "!";
+    o.setstate(std::ios_base::failbit);
+    return o;
+}
+
 // bytes a careless formatter or transport would mangle: NUL, newline, the record delimiters
 inline std::string odd_string(const Item& it)
 {
@@ -385,7 +397,7 @@ inline std::string odd_string(const Item& it)
 // a record longer than any usual buffer / PIPE_BUF
 inline std::string big_string(const Item& it)
 {
-    std::string s(static_cast<size_t>(3000 + (it.val % 8) * 1000), 'x');
+    std::string s(static_cast<size_t>(3000 + (it.val % 10) * 2000), 'x'); // 3 .. 21 kB
     for (size_t i = 0; i < s.size(); i += 97)
         s[i] = static_cast<char>('a' + (i / 97 + static_cast<size_t>(it.val)) % 26);
     return s;
@@ -464,6 +476,12 @@ inline void render_into(std::ostream& o, const Item& it)
     case 'N':
         o << ("N" + std::to_string(it.val));
         break;
+    case 'Q':
+        o << (it.val % 3 == 0 ? "eth0" : it.val % 3 == 1 ? "q" : "");
+        break;
+    case 'F':
+        o << FailBit{};
+        break;
     case 'x':
         break;
     default:
@@ -494,7 +512,7 @@ inline std::vector<Item> parse_items(const std::string& s)
         it.val = n;
         if (i < s.size() && s[i] == ',')
             ++i;
-        if (strchr("sBkhiuldbpcgfxnmzryaHAWN", it.kind))
+        if (strchr("sBkhiuldbpcgfxnmzryaHAWNQF", it.kind))
             v.push_back(it);
         if (v.size() >= 8)
             break;
@@ -687,6 +705,17 @@ decltype(auto) with_item(int stmt, int k, const Item& it, F&& f)
         }
         return f(v);
     }
+    case 'Q':
+    {
+        // a partially filled character buffer: only the text up to the terminator belongs to the message
+        char buf[16] = { 0 };
+        const char* src = it.val % 3 == 0 ? "eth0" : it.val % 3 == 1 ? "q" : "";
+        std::strncpy(buf, src, sizeof buf - 1);
+        buf[8] = 'Z'; // garbage behind the terminator
+        return f(buf);
+    }
+    case 'F':
+        return f(FailBit{});
     case 'H':
         return f(std::hex); // manipulators: their effect stays within this statement's text
     case 'A':
@@ -795,6 +824,7 @@ struct LoggerEntry
     void (*reset)();
     void (*set_threshold)(int n, int level);
     void (*expr_stmt)(int sev, const char* tag, PutCtx&, const std::vector<Item>&);
+    void (*bound_stmt)(int sev, const char* tag, PutCtx&, const std::vector<Item>&); // auto&& s = L::sev(tag) << first; s << ...;
     NamedBase* (*open_named)(int sev, const char* tag, const std::string& id);
     bool null_type[6]; // stream type is an empty, trivially destructible class
     bool live_type[6]; // stream type is neither
@@ -836,6 +866,48 @@ struct Ops
                 chain(Make<L, Sev, false>::go(tag), pc, items, 0);
             else
                 chain(Make<L, Sev, false>::go(tag) << pc.id, pc, items, 0);
+        }
+    }
+    // `auto&& s = L::info(tag) << first;` followed by further insertions into s: the stream returned
+    // by the first insertion must live until the end of the scope
+    template <int Sev, bool Tagged>
+    static void bound1(const char* tag, PutCtx& pc, const std::vector<Item>& items)
+    {
+        auto&& s = Make<L, Sev, Tagged>::go(tag) << pc.id;
+        for (size_t k = 0; k < items.size(); k++)
+        {
+            yield(YK_STEP);
+            pc.begin(static_cast<int>(k));
+            with_item(pc.stmt, static_cast<int>(k), items[k], [&](auto&& v) {
+                s << v;
+                pc.end(static_cast<int>(k));
+            });
+        }
+    }
+    template <int Sev>
+    static void bound0(const char* tag, PutCtx& pc, const std::vector<Item>& items)
+    {
+        if (tag)
+            bound1<Sev, true>(tag, pc, items);
+        else
+            bound1<Sev, false>(tag, pc, items);
+    }
+    static void bound_stmt(int sev, const char* tag, PutCtx& pc, const std::vector<Item>& items)
+    {
+        switch (sev)
+        {
+        case 0:
+            return bound0<0>(tag, pc, items);
+        case 1:
+            return bound0<1>(tag, pc, items);
+        case 2:
+            return bound0<2>(tag, pc, items);
+        case 3:
+            return bound0<3>(tag, pc, items);
+        case 4:
+            return bound0<4>(tag, pc, items);
+        default:
+            return bound0<5>(tag, pc, items);
         }
     }
     static void expr_stmt(int sev, const char* tag, PutCtx& pc, const std::vector<Item>& items)
@@ -898,6 +970,7 @@ struct Ops
                             &reset,
                             &set_threshold,
                             &expr_stmt,
+                            &bound_stmt,
                             &open_named,
                             { is_null<0>(), is_null<1>(), is_null<2>(), is_null<3>(), is_null<4>(), is_null<5>() },
                             { is_live<0>(), is_live<1>(), is_live<2>(), is_live<3>(), is_live<4>(), is_live<5>() } };
@@ -939,10 +1012,13 @@ struct ProbeSink
 };
 using StaticRec = nl::record<nl::severity_attribute, nl::message_attribute, nl::timestamp_clock_attribute<std::chrono::steady_clock>>;
 using StaticL = nl::logger<StaticRec, ProbeFormatter, ProbeSink, StatefulFilter>;
+using StaticCfgFilter = nl::filter::severity_filter<StaticRec, 7>;
 struct StaticInitProbe
 {
     StaticInitProbe()
     {
+        // configuration done while globals are being constructed must stick
+        StaticCfgFilter::set_severity(nl::severity_level::error);
         StaticL::error() << "logged while globals are still being constructed";
         StaticL::info() << "so is this";
         g_static_init_statements = 2;
